@@ -18,7 +18,9 @@ REGISTRY = {
             'stay or swap, reverse is an involution, shift by a multiple of the length is the identity, shift k then -k is the identity and '
             'shifted intervals cover the rotated residues when no interval wraps around, '
             'reversed intervals cover the mirrored residues, slice composes, split pieces concatenate to the peptide, every '
-            'additive weight (mass) is invariant. The model is tied to /repo by differential correspondence over generated '
+            'additive weight (mass) is invariant; slices (cuts not inside an interval), reversed, shifted (no interval wrapping), shuffled '
+            'and sorted canonical annotations re-parse to themselves (C01 parse_serialize, modulo dict order / {} which == ignores). '
+            'The model is tied to /repo by differential correspondence over generated '
             'annotations (length 0..25, all modification kinds, intervals at start/middle/end/adjacent, every shift in [-2n,2n], '
             'all 0<=i<=j<=n, inplace False/True) and every clause is also evaluated directly on the implementation',
     'note': 'trusted: Lean kernel, axioms propext/Classical.choice/Quot.sound, the correspondence harness and the wire codec, '
@@ -405,7 +407,7 @@ def build_cases(chk, anns, tier, corr):
 def run(chk):
     tier = chk.tier
     rng = chk.rng
-    chk.lean_build(['PeptVerif.Props.C11'], DRV)
+    chk.lean_build(['PeptVerif.Props.C11', 'PeptVerif.Props.C11Canon'], DRV)
     chk.trusted += [
         'modelled (Model/Reorder.lean): ProFormaAnnotation.slice, reverse, shift, shuffle, sort_residues, split, has_mods, the '
         'dict/list updates they perform; not modelled: copy.deepcopy (identity on values), random.shuffle (its permutation is '
@@ -522,7 +524,8 @@ def run(chk):
                key_fn=lambda c: repr(c[:4]))
 
     if tier == 'thorough':
-        chk.leanchecker(['PeptVerif.Model.Reorder', 'PeptVerif.Lemmas.Reorder', 'PeptVerif.Props.C11'])
+        chk.leanchecker(['PeptVerif.Model.Reorder', 'PeptVerif.Lemmas.Reorder', 'PeptVerif.Lemmas.ReorderCanon', 'PeptVerif.Props.C11',
+                         'PeptVerif.Props.C11Canon'])
     return chk.finish(classify)
 
 
